@@ -808,6 +808,9 @@ def run_case(T, case):
             if why:
                 problems.append(('converter-answer-not-soap', why))
     blob = out
+    for _st, hdrs, _body in responses:
+        if 'x-injected' in hdrs:
+            problems.append(('request-controlled-header-in-response', f'X-Injected: {hdrs["x-injected"]}'))
     if ENTITY_MARK in blob:
         problems.append(('entity-expanded-in-response', ''))
     if SECRET_MARK in blob:
@@ -986,7 +989,12 @@ def all_cases(quick):
             own.lstrip('/'), own + '/' + 'y' * 3000, '/%2e%2e/%2e%2e/etc/passwd', first + '//Get', own + '#frag',
             # request targets that urlparse or lxml choke on
             'http://[/x', 'http://[::1' + own, '//[' + own, own + '\x01', own + '/\x7f\x00', own + '\xff', own + '%00', own + '?\x01',
-            own + '/<&>', own + ';p=1', own.upper())]
+            own + '/<&>', own + ';p=1', own.upper(),
+            # percent-encodings that become something else when a component decodes them: non-latin-1 text, CR LF with a header
+            # line, NUL, an encoded slash, an encoded path element, overlong / invalid UTF-8
+            first + '/%E2%82%AC', first + '/%0D%0AX-Injected:%20yes', first + '/x%0d%0a%0d%0a<html>', first + '/%00', first + '/a%2Fb',
+            first + '/' + ''.join('%%%02X' % ord(c) for c in own.split('/')[-1]), first + '/%C0%AF', first + '/%FF%FE',
+            '/%E2%82%AC' + own, first + '/%25%30%44', own + '/%E2%82%AC', own + '%0D%0AX-Injected:%20yes')]
     # headers: every header x every hostile value on every request type
     header_reps = [k for k in keys if k.split(':')[-1] in ('GetMdib', 'SetString', 'Subscribe', 'Renew', 'EpisodicMetricReport')]
     for k in (header_reps if quick else keys):
